@@ -137,10 +137,10 @@ def build_lib(variant="gmp", opt="-O2"):
     return d
 
 
-def build_harness(name, sources, libdir, flags="", opt="-O1", link_lib=True, libs="-lgmpxx -lgmp"):
+def build_harness(name, sources, libdir, flags="", opt="-O1", link_lib=True, libs="-lgmpxx -lgmp", extra_deps=()):
     """Compile a harness executable against the freshly built library."""
     srcs = [os.path.join(HARN, s) for s in sources]
-    deps = srcs + glob.glob(os.path.join(HARN, "common", "*.hh"))
+    deps = srcs + glob.glob(os.path.join(HARN, "common", "*.hh")) + [os.path.join(HARN, x) for x in extra_deps]
     h = file_hash(deps, (libdir or "") + flags + opt + libs)[:16]
     exe = os.path.join(BUILD, "h-%s-%s" % (name, h))
     if os.path.exists(exe):
